@@ -15,6 +15,7 @@ import (
 	"reflect"
 	"sort"
 	"strings"
+	"sync/atomic"
 	"testing"
 	"testing/synctest"
 	"time"
@@ -29,7 +30,7 @@ import (
 var pool = []string{"alpha", "beta", "dir/gamma", "delta", "eps", "dir/zeta"}
 
 type script struct {
-	Mode string        `json:"mode"` // ok, failN, failUntil, hangUntil, slow, never
+	Mode string        `json:"mode"` // ok, failN, failUntil, hangUntil, slow, never, timeoutN
 	N    int           `json:"n,omitempty"`
 	T    time.Duration `json:"t,omitempty"`
 }
@@ -47,6 +48,9 @@ type tcase struct {
 	Client    string            `json:"client"` // scripted, file
 	FileHas   []string          `json:"file_has,omitempty"`
 	Misconfig string            `json:"misconfig,omitempty"`
+	Plain     bool              `json:"plain_errors"` // the client's failures do not wrap the context error
+	ExpiryAge time.Duration     `json:"expiry_age,omitempty"`
+	Stamp     string            `json:"cache_last_access"`
 }
 
 type cacheEntry struct {
@@ -58,7 +62,8 @@ func svcValue(name string) []byte   { return []byte("svc-value-of-" + name) }
 func cacheValue(name string) []byte { return []byte("cached-value-of-" + name) }
 
 func gen(rng *rand.Rand, idx int) tcase {
-	c := tcase{Idx: idx, Scripts: map[string]script{}, Client: "scripted", Ctx: "background"}
+	c := tcase{Idx: idx, Scripts: map[string]script{}, Client: "scripted", Ctx: "background", Plain: rng.IntN(2) == 0,
+		ExpiryAge: []time.Duration{0, 0, time.Hour, 30 * 24 * time.Hour}[rng.IntN(4)], Stamp: []string{"0", "1000", "1700000000", "946684800"}[rng.IntN(4)]}
 	if rng.IntN(25) == 0 {
 		c.Misconfig = []string{"nil-client", "no-secrets", "empty-name", "struct-no-tags", "struct-empty-tag", "non-struct"}[rng.IntN(6)]
 	}
@@ -96,7 +101,7 @@ func gen(rng *rand.Rand, idx int) tcase {
 		if c.Cache == "stale-complete" {
 			ver = 1
 		}
-		doc[d] = &cacheEntry{Secret: &api.SecretValue{Value: cacheValue(d), Version: ver}, LastAccess: "1700000000"}
+		doc[d] = &cacheEntry{Secret: &api.SecretValue{Value: cacheValue(d), Version: ver}, LastAccess: c.Stamp}
 	}
 	if rng.IntN(3) == 0 { // an undeclared extra entry
 		doc["extra/undeclared"] = &cacheEntry{Secret: &api.SecretValue{Value: []byte("x"), Version: 9}, LastAccess: "0"}
@@ -139,7 +144,9 @@ func gen(rng *rand.Rand, idx int) tcase {
 	// scripts
 	for _, d := range decl {
 		var s script
-		switch rng.IntN(9) {
+		switch rng.IntN(10) {
+		case 9:
+			s = script{Mode: "timeoutN", N: 1 + rng.IntN(6)} // the client's own per-request timeout fires k times
 		case 0, 1, 2:
 			s = script{Mode: "ok"}
 		case 3, 4:
@@ -215,16 +222,23 @@ func TestC10(t *testing.T) {
 		"'keeps retrying until all succeed' is checked as bounded progress: once every script has turned ok, NewStore returns within 5 s per remaining retry round")
 	tmp := evid.TempDir(t)
 	n := r.N(20000, 400000)
+	stop := r.SpinWatchdog(&progress, "initializeActive", "newstore-spins", "NewStore spins on the CPU instead of returning or pausing (its retry loop never blocks, so virtual time cannot advance)")
 	for i := 0; i < n; i++ {
 		if r.Skip(i) {
 			continue
 		}
 		c := gen(r.Rand(uint64(i)), i)
+		progress.Add(1)
+		lastCase.Store(&c)
 		runCase(t, r, c, tmp)
 	}
+	stop()
 	r.Require("returned_nil", "returned_error_ctx", "complete_cache_no_request", "retry_rounds", "fileclient_missing", "misconfig", "cache_ignored_as_invalid")
-	r.Rule("seeded cases = declared names (1-6 of a 6-name pool, with duplicates, via Secrets and/or a run-time generated tagged struct) x cache content (none, empty, partial, complete, stale, invalid JSON, null entry, entry without secret, empty key, wrong JSON type, one entry with a wrongly typed field, read error) x per-secret service script (ok, fail k times, fail until T, hang until T, slow, never) x context (background, deadline, cancel at T) x client kind (scripted / real FileClient). Distinct = (cache kind, set of script modes, context kind, client kind, outcome)")
+	r.Rule("seeded cases = declared names (1-6 of a 6-name pool, with duplicates, via Secrets and/or a run-time generated tagged struct) x cache content (none, empty, partial, complete, stale, invalid JSON, null entry, entry without secret, empty key, wrong JSON type, one entry with a wrongly typed field, read error) x per-secret service script (ok, fail k times, fail k times with the client's own timeout error, fail until T, hang until T, slow, never; failures with and without the context error wrapped) x expiry age {0, 1h, 30d} with old/zero/future cache stamps x context (background, deadline, cancel at T) x client kind (scripted / real FileClient). Distinct = (cache kind, set of script modes, context kind, client kind, outcome)")
 }
+
+var progress atomic.Int64
+var lastCase atomic.Pointer[tcase]
 
 func runCase(t *testing.T, r *evid.Run, c tcase, tmp string) {
 	r.Eval(1)
@@ -268,11 +282,15 @@ func runCase(t *testing.T, r *evid.Run, c tcase, tmp string) {
 			switch s.Mode {
 			case "failN":
 				if attempts[q.Name] <= s.N {
-					return fakesvc.Behaviour{Fail: fakesvc.ErrInjected}
+					return fakesvc.Behaviour{Fail: fakesvc.ErrInjected, Plain: c.Plain}
+				}
+			case "timeoutN":
+				if attempts[q.Name] <= s.N {
+					return fakesvc.Behaviour{Fail: fmt.Errorf("request timed out inside the client: %w", context.DeadlineExceeded), Plain: c.Plain}
 				}
 			case "failUntil":
 				if now < s.T {
-					return fakesvc.Behaviour{Fail: fakesvc.ErrInjected}
+					return fakesvc.Behaviour{Fail: fakesvc.ErrInjected, Plain: c.Plain}
 				}
 			case "hangUntil":
 				if now < s.T {
@@ -281,11 +299,11 @@ func runCase(t *testing.T, r *evid.Run, c tcase, tmp string) {
 			case "slow":
 				return fakesvc.Behaviour{Delay: s.T}
 			case "never":
-				return fakesvc.Behaviour{Fail: fakesvc.ErrInjected}
+				return fakesvc.Behaviour{Fail: fakesvc.ErrInjected, Plain: c.Plain}
 			}
 			return fakesvc.Behaviour{}
 		}
-		cfg := setec.StoreConfig{Client: svc, Secrets: append([]string(nil), c.Secrets...), PollInterval: -1, Logf: func(string, ...any) {}}
+		cfg := setec.StoreConfig{ExpiryAge: c.ExpiryAge, Client: svc, Secrets: append([]string(nil), c.Secrets...), PollInterval: -1, Logf: func(string, ...any) {}}
 		if fileClient != nil {
 			cfg.Client = fileClient
 		}
@@ -542,7 +560,7 @@ func runCase(t *testing.T, r *evid.Run, c tcase, tmp string) {
 			for _, d := range needed {
 				s := c.Scripts[d]
 				switch s.Mode {
-				case "failN":
+				case "failN", "timeoutN":
 					bound += time.Duration(s.N) * 5 * time.Second
 				case "failUntil", "hangUntil":
 					if s.T > bound {
